@@ -6,6 +6,7 @@
 import FianoModel.Uefi.FaithfulLemmas
 
 namespace Fiano.Uefi
+open FaithfulAux
 open Fiano
 
 theorem FvF.buf_eq {h : Hooks} {v : Fv} {data : Bytes} (hv : FvF h v data) :
